@@ -11,7 +11,9 @@ package main
 // prelude Model/GoPrelude.lean: Sub, Unix, Nanosecond, Before, After, UTC, time.Unix),
 // panic(...) (the function then returns an Option, none = panic), conversions between
 // integer widths, int64 shifts by constants, nested field selection, struct literals of
-// translated struct types. Anything else is reported as a broken tie.
+// translated struct types; and, third generation: slices of integers as lists (len, indexing
+// with the bounds check made explicit — an out-of-range index is a panic —, slices.Sort).
+// Anything else is reported as a broken tie.
 
 import (
 	"fmt"
@@ -52,6 +54,9 @@ var leaves = []leafSpec{
 	{"net/csptp", "MeanPathDelay", "csptp_MeanPathDelay"},
 	{"net/csptp", "ClockOffset", "csptp_ClockOffset"},
 	{"net/ntske", "Key.IsValidAt", "ntske_Key_IsValidAt"},
+	// third generation: slices of integers (len, checked indexing, slices.Sort)
+	{"base/timemath", "Median", "timemath_Median"},
+	{"base/timemath", "FaultTolerantMidpoint", "timemath_FaultTolerantMidpoint"},
 }
 
 var leanInt = map[string]string{
@@ -67,7 +72,9 @@ type leafCtx struct {
 	vars    map[string]string      // variable -> lean type
 	ret     string                 // lean result type ("" = tuple / unknown)
 	err     error
-	panics  bool              // the function contains panic(...): it returns Option (none = panic)
+	panics  bool     // the function contains panic(...) or an index expression: it returns Option (none = panic)
+	binds   []string // pending bounds-checked index reads of the statement being translated
+	nfresh  int
 	leafOf  map[string]string // "Recv.Name" / "Name" in this dir -> lean name
 	retOf   map[string]string
 }
@@ -91,6 +98,12 @@ func typeName(e ast.Expr) string {
 }
 
 func (c *leafCtx) leanType(e ast.Expr) string {
+	if at, ok := e.(*ast.ArrayType); ok && at.Len == nil {
+		if et := c.leanType(at.Elt); et == "Int64" {
+			return "L_Int64"
+		}
+		return ""
+	}
 	if se, ok := e.(*ast.SelectorExpr); ok {
 		if id, ok := se.X.(*ast.Ident); ok && id.Name == "time" && se.Sel.Name == "Time" {
 			return "GoTime"
@@ -146,8 +159,11 @@ func (c *leafCtx) isValue(e ast.Expr) bool {
 
 // leanTypeName is the Lean spelling of an internal type name.
 func leanTypeName(t string) string {
-	if t == "GoTime" {
+	switch t {
+	case "GoTime":
 		return "Int"
+	case "L_Int64":
+		return "(List Int64)"
 	}
 	return t
 }
@@ -261,7 +277,26 @@ func (c *leafCtx) expr(e ast.Expr, want string) (string, string) {
 		}
 		c.fail("unsupported unary operator %s", x.Op)
 		return a, t
+	case *ast.IndexExpr:
+		xs, xt := c.expr(x.X, "")
+		if xt != "L_Int64" || !c.panics {
+			c.fail("unsupported index expression")
+			return "0", want
+		}
+		is, _ := c.expr(x.Index, "Int64")
+		c.nfresh++
+		v := fmt.Sprintf("_i%d", c.nfresh)
+		c.binds = append(c.binds, "(Go.idx? "+xs+" "+is+").bind fun "+v+" =>")
+		return v, "Int64"
 	case *ast.CallExpr:
+		if id, ok := x.Fun.(*ast.Ident); ok && id.Name == "len" && len(x.Args) == 1 {
+			a, t := c.expr(x.Args[0], "")
+			if t == "L_Int64" {
+				return "(Go.len " + a + ")", "Int64"
+			}
+			c.fail("len of an unsupported value")
+			return "0", want
+		}
 		// conversion T(x) between integer types, a time.Time operation, or a call of another leaf
 		if len(x.Args) == 1 {
 			if lt, ok := leanInt[typeName(x.Fun)]; ok && isIntType(lt) {
@@ -460,9 +495,22 @@ func hasPanic(n ast.Node) bool {
 		if s, ok := n.(ast.Stmt); ok && isPanic(s) {
 			found = true
 		}
+		if _, ok := n.(*ast.IndexExpr); ok { // an index out of range is a run-time panic
+			found = true
+		}
 		return !found
 	})
 	return found
+}
+
+// takeBinds returns the pending index reads as a prefix for the statement just translated.
+func (c *leafCtx) takeBinds(ind string) string {
+	var sb strings.Builder
+	for _, b := range c.binds {
+		sb.WriteString(b + "\n" + ind)
+	}
+	c.binds = nil
+	return sb.String()
 }
 
 func returns(stmts []ast.Stmt) bool {
@@ -513,7 +561,7 @@ func (c *leafCtx) block(stmts []ast.Stmt, tail string, ind string) string {
 		}
 		e, _ := c.expr(st.Results[0], c.ret)
 		if c.panics {
-			return "some (" + e + ")"
+			return c.takeBinds(ind) + "some (" + e + ")"
 		}
 		return e
 	case *ast.AssignStmt:
@@ -543,12 +591,21 @@ func (c *leafCtx) block(stmts []ast.Stmt, tail string, ind string) string {
 			t = "Int64"
 		}
 		c.vars[id.Name] = t
-		return "let " + id.Name + " : " + leanTypeName(t) + " := " + e + "\n" + ind + c.block(rest, tail, ind)
+		return c.takeBinds(ind) + "let " + id.Name + " : " + leanTypeName(t) + " := " + e + "\n" + ind + c.block(rest, tail, ind)
 	case *ast.DeclStmt:
 		return c.block(rest, tail, ind) // `var x T` without value: variables are introduced at first assignment
 	case *ast.ExprStmt:
 		if isPanic(st) && c.panics {
 			return "none"
+		}
+		if ce, ok := st.X.(*ast.CallExpr); ok && len(ce.Args) == 1 {
+			if f, ok := ce.Fun.(*ast.SelectorExpr); ok {
+				if pk, ok := f.X.(*ast.Ident); ok && pk.Name == "slices" && f.Sel.Name == "Sort" {
+					if id, ok := ce.Args[0].(*ast.Ident); ok && c.vars[id.Name] == "L_Int64" {
+						return "let " + id.Name + " : (List Int64) := Go.sortI64 " + id.Name + "\n" + ind + c.block(rest, tail, ind)
+					}
+				}
+			}
 		}
 		c.fail("unsupported expression statement")
 		return "0"
@@ -558,6 +615,7 @@ func (c *leafCtx) block(stmts []ast.Stmt, tail string, ind string) string {
 			return "0"
 		}
 		cond, _ := c.expr(st.Cond, "Bool")
+		condBinds := c.takeBinds(ind)
 		var elseList []ast.Stmt
 		switch e := st.Else.(type) {
 		case *ast.BlockStmt:
@@ -569,7 +627,7 @@ func (c *leafCtx) block(stmts []ast.Stmt, tail string, ind string) string {
 			// if c { …return } [else {…}] ; rest  ==>  if c then … else (else-block ; rest)
 			thenE := c.block(st.Body.List, "", ind+"  ")
 			elseE := c.block(append(append([]ast.Stmt{}, elseList...), rest...), tail, ind+"  ")
-			return "if " + cond + " then\n" + ind + "  " + thenE + "\n" + ind + "else\n" + ind + "  " + elseE
+			return condBinds + "if " + cond + " then\n" + ind + "  " + thenE + "\n" + ind + "else\n" + ind + "  " + elseE
 		}
 		// no return inside: the if only updates variables
 		set := map[string]bool{}
